@@ -120,6 +120,15 @@ func resolve(in *gen.Instance, sp *packages.Package, fset *token.FileSet, d *ast
 				case "Instrument":
 					r.Instr = true
 					set(tc.Args[0], gen.Role{Kind: "name", Task: nTask})
+				case "Invoke":
+					// a constant; the generated code refers to it all the same (an import used only here must stay
+					// used) unless it is the predeclared true or false
+					if id, ok := astx.Unparen(tc.Args[0]).(*ast.Ident); ok {
+						if o := info.Uses[id]; o != nil && o.Parent() == types.Universe {
+							break
+						}
+					}
+					set(tc.Args[0], gen.Role{Kind: "invoke", Task: nTask})
 				}
 			}
 			set(oc.Args[0], r)
